@@ -15,6 +15,7 @@ import (
 	"os"
 	"strconv"
 	"strings"
+	"time"
 
 	"github.com/hashicorp/hcl/v2/verifsync"
 
@@ -61,6 +62,8 @@ type explorer struct {
 	rep      *Report
 	outcomes map[string]bool
 	cap      int64
+	start    time.Time
+	maxTime  time.Duration
 	labels   map[string]bool
 }
 
@@ -144,7 +147,8 @@ func safeThread(d *drivers.Driver, shared any, i int) (s string) {
 }
 
 func (x *explorer) explore(prefix []int, top bool, shard, nshards int) {
-	if x.rep.Executions >= x.cap {
+	if x.rep.Executions >= x.cap || time.Since(x.start) > x.maxTime {
+		// internal budget (executions or wall clock on a loaded machine): stop exploring, report the shard as not exhaustive
 		x.rep.Exhaustive = false
 		return
 	}
@@ -199,6 +203,7 @@ func main() {
 	shardS := flag.String("shard", "0/1", "shard i/n of the top-level branches")
 	sched := flag.String("schedule", "", "comma-separated choice sequence to run once")
 	capN := flag.Int64("cap", 3000000, "maximum executions")
+	maxTime := flag.Duration("maxtime", 20*time.Minute, "wall-clock budget of this shard; when it is used up the shard reports exhaustive=false")
 	list := flag.Bool("list", false, "list drivers")
 	flag.Parse()
 	if *list {
@@ -214,7 +219,7 @@ func main() {
 	}
 	verifsync.Filter = drivers.PointFilter(d.Points)
 	rep := &Report{Driver: d.Name, Threads: d.Threads, Bound: *bound, Shard: *shardS, Exhaustive: true}
-	x := &explorer{d: d, bound: *bound, rep: rep, outcomes: map[string]bool{}, cap: *capN, labels: map[string]bool{}}
+	x := &explorer{d: d, bound: *bound, rep: rep, outcomes: map[string]bool{}, cap: *capN, labels: map[string]bool{}, start: time.Now(), maxTime: *maxTime}
 	for i := 0; i < d.Threads; i++ {
 		x.solo = append(x.solo, safeThread(d, d.Setup(), i))
 	}
